@@ -65,7 +65,8 @@ def replay(ctx, path, cmd="auth-replay", sig_prefix="replay:auth", describe=None
             kind = ""
             extra = extra[1:]
         if kind == "other":
-            kind = r["problems"][0].split(":")[0].replace(" ", "-")[:40]
+            first = r["problems"][0]
+            kind = "levels" if first.startswith("evaluation levels") else first.split(":")[0].replace(" ", "-")[:40]
         ctx.finding(("%s:%s%s" % (sig_prefix, kind, extra)).replace("::", ":"), "; ".join(r["problems"][:2])[:400],
                     {"kind": cmd, "case": case, "row": r})
     n = len(rows)
